@@ -46,6 +46,24 @@ static void check_raw(u64 raw, long long &ev)
     u64 u2;
     Goldilocks::toU64(u2, e);
     if (u2 != canon) rep().viol("C15.wrong.toU64.ref", cs_, "");
+    {
+        // reference overload with the output aliasing the element's own storage word
+        E a;
+        a.fe = raw;
+        Goldilocks::toU64(a.fe, a);
+        ev++;
+        if (a.fe != canon) rep().viol("C15.wrong.toU64.alias", cs_, fmt("toU64(e.fe, e) left %s expected %s", hex(a.fe).c_str(), hex(canon).c_str()));
+        E b;
+        b.fe = raw;
+        Goldilocks::toS64((int64_t &)b.fe, b);
+        ev++;
+        int64_t exs2 = (canon <= (GP - 1) / 2) ? (int64_t)canon : -(int64_t)(GP - canon);
+        if ((int64_t)b.fe != exs2) rep().viol("C15.wrong.toS64.alias", cs_, fmt("toS64((int64_t&)e.fe, e) left %lld expected %lld", (long long)(int64_t)b.fe, (long long)exs2));
+        E c;
+        c.fe = raw;
+        Goldilocks::fromU64(c, c.fe);
+        if (c.fe % GP != canon) rep().viol("C15.wrong.fromU64.alias", cs_, "");
+    }
     // toS64: centred representative
     int64_t s = Goldilocks::toS64(e);
     ev++;
